@@ -4,7 +4,7 @@ CHECK_DEADLOCK FALSE
 VIEW view
 INVARIANTS TypeOK Contract
 CONSTANTS
-  Kinds = {"token", "userpass", "kafka"}
+  Kinds = {"token", "userpass", "kafka", "kafka_off"}
   CreateFaults = {0, 1, 2, 3, 4, 5, 6, 95, 97, 98, 99}
   ReadFaults = {0, 1}
   PauseFaults = {0, 1, 2}
